@@ -1,5 +1,6 @@
 import StepModel.ComplexLemmas
 import StepModel.ComplexBuild
+import StepModel.ComplexSafeTop
 /-!
 # C08 — complex instances are accepted exactly when the supertype constraints allow them
 
@@ -23,6 +24,11 @@ Not proved (tested exhaustively instead, see notes/C08.md): `supports` ⟷ `eval
 -/
 namespace StepModel.Complex
 open StepModel.Generated Match
+
+/-- diamond below one root (see `exDiamondTree` further down) -/
+def exDiamondTree' : Collect :=
+  [.and [.simple 0, .andor [.or [.simple 1, .and [.simple 1, .andor [.simple 3]]],
+                            .or [.simple 2, .and [.simple 2, .andor [.simple 3]]]]]]
 
 /-- Order and repetition of the parts do not matter: requests naming the same set of entities get the same outcome. -/
 theorem C08_order_irrelevant (c : Collect) (mult parts parts' : List Name)
@@ -67,6 +73,23 @@ theorem C08_and_flatten_meaning (as bs cs : List Tree) :
   show prodD (prodD (denoteL bs) :: denoteL cs) = prodD (denoteL bs ++ denoteL cs)
   rw [C08_prodD_append]
   rfl
+
+-- ------------------------------------------------------------------ no crash
+/-- **No crash, all inputs.**  For every collect whose lists have the shape exp2cxx emits (`headWF`: head =
+`AND(SimpleList, sub-list)`, every list below has a child — `checks/c08.py` verifies this on every emitted tree) and
+every request whose members with several supertypes occur in some list (true for generated collects: such a member is a
+subtype, hence a leaf of its supertypes' lists), `supports` never returns a crash outcome: none of the eight modelled
+unchecked dereferences is reachable.  Proved by induction on the fuel over the five mutual blocks of the model
+(`ComplexSafe.lean`) with the invariants `WFv`/`Ch`/`ReadyV`; the step "`firstCandidate( child->prev )` with a null
+`prev`" is closed by the *regenerated* `tryNextNullSafe` (on the tree before fixes/C08-1 this proof does not check). -/
+theorem C08_no_crash (c : Collect) (mult parts : List Name) (hc : ∀ h ∈ c, headWF h = true)
+    (hcov : ∀ n ∈ parts, n ∈ mult → ∃ h ∈ c, n ∈ leaves h) (k : Crash) :
+    supports c mult parts ≠ .crash k :=
+  supports_no_crash c mult parts hc hcov k
+
+/-- the hypotheses are satisfiable: the emitted tree of the diamond example, request `{a, b, d}` with `d` flagged -/
+example : ∀ k, supports exDiamondTree' [3] [0, 1, 3] ≠ .crash k :=
+  C08_no_crash _ _ _ (by decide) (by decide)
 
 -- ------------------------------------------------------------------ regenerated constants the model relies on
 theorem C08_enum_order : markTypeNames = assumedMarkNames ∧ matchTypeNames = assumedMatchNames := by decide
